@@ -51,7 +51,7 @@ fn bounded_rolling_sum_mean() {
 // from-scratch evaluation of each window, length 4
 #[kani::proof]
 #[kani::unwind(7)]
-fn bounded_rolling_minmaxnorm() {
+fn bounded_rolling_c03_minmaxnorm() {
     let a = any_series();
     let w: usize = kani::any();
     kani::assume(1 <= w && w <= N + 1);
@@ -71,6 +71,116 @@ fn bounded_rolling_minmaxnorm() {
         } else {
             let d = r[i] * (mx - mn) - (a[i] - mn);
             assert!(!r[i].is_nan() && d < 1e-9 && d > -1e-9);
+        }
+        i += 1;
+    }
+}
+
+// ---- rolling rank (tea-rolling cmp.rs ts_vrank; not under a Verus contract): exact average rank of the current element among the
+// non-null elements of its window, ascending / descending, optionally as a fraction; null for a null element or below min_periods
+#[kani::proof]
+#[kani::unwind(7)]
+fn bounded_rolling_c03_rank() {
+    let a = any_series();
+    let w: usize = kani::any();
+    kani::assume(1 <= w && w <= N + 1);
+    let mp: usize = kani::any();
+    kani::assume(mp <= w);
+    let (pct, rev): (bool, bool) = (kani::any(), kani::any());
+    let v: Vec<f64> = a.to_vec();
+    let r: Vec<f64> = v.ts_vrank(w, Some(mp), pct, rev);
+    assert!(r.len() == N);
+    let mut i = 0;
+    while i < N {
+        let lo = if i + 1 >= w { i + 1 - w } else { 0 };
+        let (mut cnt, mut less, mut eq) = (0usize, 0usize, 0usize);
+        let mut j = lo;
+        while j <= i {
+            if !a[j].is_nan() {
+                cnt += 1;
+                if j < i && !a[i].is_nan() { if a[j] < a[i] { less += 1; } else if a[j] == a[i] { eq += 1; } }
+            }
+            j += 1;
+        }
+        if a[i].is_nan() || cnt < mp {
+            assert!(r[i].is_nan());
+        } else {
+            // average rank: 1 + #smaller + #equal / 2; descending: n + 1 - that
+            let asc = 1.0 + less as f64 + 0.5 * eq as f64;
+            let want = if !rev { asc } else { (cnt + 1) as f64 - asc };
+            if pct { let d = r[i] * cnt as f64 - want; assert!(d < 1e-9 && d > -1e-9); } else { assert!(r[i] == want); }
+        }
+        i += 1;
+    }
+}
+
+// the same normalisation on an INTEGER element type (the quotient must not be formed in the element type)
+#[kani::proof]
+#[kani::unwind(7)]
+fn bounded_rolling_c03_minmaxnorm_int() {
+    let mut a: [Option<i32>; N] = [None; N];
+    let mut i = 0;
+    while i < N { if kani::any() { let v: i8 = kani::any(); kani::assume(-3 <= v && v <= 3); a[i] = Some(v as i32); } i += 1; }
+    let w: usize = kani::any();
+    kani::assume(1 <= w && w <= N + 1);
+    let mp: usize = kani::any();
+    kani::assume(mp <= w);
+    let v: Vec<Option<i32>> = a.to_vec();
+    let r: Vec<f64> = v.ts_vminmaxnorm(w, Some(mp));
+    assert!(r.len() == N);
+    i = 0;
+    while i < N {
+        let lo = if i + 1 >= w { i + 1 - w } else { 0 };
+        let (mut cnt, mut mn, mut mx) = (0usize, i32::MAX, i32::MIN);
+        let mut j = lo;
+        while j <= i { if let Some(x) = a[j] { cnt += 1; if x < mn { mn = x; } if x > mx { mx = x; } } j += 1; }
+        match a[i] {
+            Some(x) if cnt >= mp && cnt > 0 && mx != mn => {
+                let d = r[i] * (mx - mn) as f64 - (x - mn) as f64;
+                assert!(!r[i].is_nan() && d < 1e-9 && d > -1e-9);
+            },
+            _ => assert!(r[i].is_nan()),
+        }
+        i += 1;
+    }
+}
+
+// ---- rolling extrema and arg-extrema (tea-rolling cmp.rs; proved by the Verus unit `cmp` - this is the bounded backstop that
+// still decides when a change leaves the contracts' anchors): least / greatest non-null element of the window, 1-based offset of
+// the MOST RECENT position holding it; null below min_periods; nulls transparent (C03, C06, C08)
+#[kani::proof]
+#[kani::unwind(7)]
+fn bounded_rolling_c03_extrema() {
+    let a = any_series();
+    let w: usize = kani::any();
+    kani::assume(1 <= w && w <= N + 1);
+    let mp: usize = kani::any();
+    kani::assume(mp <= w);
+    let v: Vec<f64> = a.to_vec();
+    let rmin: Vec<f64> = v.ts_vmin(w, Some(mp));
+    let rmax: Vec<f64> = v.ts_vmax(w, Some(mp));
+    let amin: Vec<f64> = v.ts_vargmin(w, Some(mp));
+    let amax: Vec<f64> = v.ts_vargmax(w, Some(mp));
+    assert!(rmin.len() == N && rmax.len() == N && amin.len() == N && amax.len() == N);
+    let mut i = 0;
+    while i < N {
+        let lo = if i + 1 >= w { i + 1 - w } else { 0 };
+        let (mut cnt, mut mn, mut mx, mut imn, mut imx) = (0usize, f64::INFINITY, f64::NEG_INFINITY, 0usize, 0usize);
+        let mut j = lo;
+        while j <= i {
+            if !a[j].is_nan() {
+                cnt += 1;
+                if a[j] <= mn { mn = a[j]; imn = j - lo + 1; }
+                if a[j] >= mx { mx = a[j]; imx = j - lo + 1; }
+            }
+            j += 1;
+        }
+        if cnt < mp {
+            assert!(rmin[i].is_nan() && rmax[i].is_nan() && amin[i].is_nan() && amax[i].is_nan());
+        } else if cnt > 0 {
+            // (an all-null window with min_periods 0 is left unspecified, as in the Verus contract)
+            assert!(rmin[i] == mn && rmax[i] == mx);
+            assert!(amin[i] == imn as f64 && amax[i] == imx as f64);
         }
         i += 1;
     }
